@@ -68,6 +68,7 @@ def argv_of(o):
 
 class C15(Prop):
     id = "C15"
+    once_kinds = ("point", "auto", "usage")
     rule = ("cases: the complete product of 288 option points x 3 probe documents (each option changes at least one of them; "
             "CRLF / lone-CR / BOM documents given as the same bytes in a file and on stdin) x {file->stdout, stdin->stdout, stdin->-o, --inplace, --inplace --nobackup, several files->stdout, "
             "several files --inplace} through cli.main in-process, reformat_file and reformat_text; --auto against its spelled-out "
